@@ -14,7 +14,7 @@ import json, os, re, concurrent.futures as cf
 from vlib import Infra, log, read_ndjson, write_ndjson
 
 PATH_SHAPES = list(range(1, 14))
-DATA_SHAPES = list(range(1, 31))
+ALL_DATA_SHAPES = list(range(1, 59))
 
 
 def set_lit(xs):
@@ -36,8 +36,10 @@ def parse_fails(out):
     return fs
 
 
-def validate_trace(ctx, module, trace, schemas, nproc=8):
-    """Run the trace spec over the events (chunked, in parallel). Returns (failures, events)."""
+def validate_trace(ctx, module, trace, schemas, corrupt, nproc=8):
+    """Run the trace spec over the events (chunked, in parallel). Returns (failures, events).
+    One more chunk is the binding self-test: 20 events plus a corrupted copy of the first one
+    (corrupt(ev)), which the trace spec has to reject - otherwise exit 2."""
     lines = [l for l in open(trace).read().splitlines() if l]
     if not lines:
         raise Infra("the harness recorded no events")
@@ -46,10 +48,15 @@ def validate_trace(ctx, module, trace, schemas, nproc=8):
     for i in range(0, len(lines), per):
         p = ctx.path("chunks", f"{module}_{len(chunks)}.ndjson")
         open(p, "w").write("\n".join(lines[i:i + per]) + "\n")
-        chunks.append((p, len(lines[i:i + per])))
+        chunks.append((p, len(lines[i:i + per]), False))
+    ev = json.loads(lines[0])
+    corrupt(ev)
+    p = ctx.path("selftest", module + ".ndjson")
+    open(p, "w").write("\n".join(lines[:20] + [json.dumps(ev)]) + "\n")
+    chunks.append((p, len(lines[:20]) + 1, True))
 
     def one(ch):
-        p, n = ch
+        p, n, selftest = ch
         r = ctx.tlc(module, module + ".cfg", data={"trace.ndjson": p, "schemas.ndjson": schemas}, workers=1, timeout=1500, heap="3g")
         m = re.search(r'<<"TRACE-RESULT", (\d+), (\d+)>>', r["out"])
         if not m or int(m.group(1)) != n:
@@ -57,37 +64,60 @@ def validate_trace(ctx, module, trace, schemas, nproc=8):
         fs = parse_fails(r["out"])
         if len(fs) > int(m.group(2)):
             raise Infra(f"{module}: {len(fs)} failures printed, {m.group(2)} counted")
+        if selftest:
+            if int(m.group(2)) < 1 or not fs:
+                raise Infra(f"self-test: {module} accepted a corrupted event")
+            return [], 0
         return fs, n
 
     fails, events = [], 0
-    with cf.ThreadPoolExecutor(max_workers=nproc) as ex:
+    with cf.ThreadPoolExecutor(max_workers=nproc + 1) as ex:
         for fs, n in ex.map(one, chunks):
             fails += fs
             events += n
     return fails, events
 
 
-def selftest_trace(ctx, module, trace, schemas, corrupt):
-    """The binding must bind: a corrupted event has to be rejected by the trace spec."""
-    lines = [l for l in open(trace).read().splitlines() if l][:20]
-    ev = json.loads(lines[0])
-    corrupt(ev)
-    p = ctx.path("selftest", module + ".ndjson")
-    open(p, "w").write("\n".join(lines + [json.dumps(ev)]) + "\n")
-    r = ctx.tlc(module, module + ".cfg", data={"trace.ndjson": p, "schemas.ndjson": schemas}, workers=1, timeout=600, heap="2g")
-    m = re.search(r'<<"TRACE-RESULT", (\d+), (\d+)>>', r["out"])
-    base = len([f for f in parse_fails(r["out"])])
-    if not m or int(m.group(2)) < 1 or base < 1:
-        raise Infra(f"self-test: {module} accepted a corrupted event")
-    ctx.states -= r["distinct"]          # the self-test is not coverage
-    ctx.transitions -= r["generated"]
-    ctx.tlc_runs.pop()
+def sample_pairs(ctx, pairs, per_shape, tag):
+    """(schema file, vector file) pairs with a seeded random sample of each vector file: the slow
+    race-detector build reads only what it runs."""
+    import random
+    rnd = random.Random(ctx.seed)
+    out = []
+    for i in range(0, len(pairs), 2):
+        lines = open(pairs[i + 1]).read().splitlines()
+        if len(lines) > per_shape:
+            lines = rnd.sample(lines, per_shape)
+        p = ctx.path("conc", "%s_%d.ndjson" % (tag, i // 2))
+        open(p, "w").write("\n".join(lines) + "\n")
+        out += [pairs[i], p]
+    return out
+
+
+def conc_stage(ctx, cmd, args, what, how):
+    """Concurrent stage: the race-detector build of dv shares ONE compiled schema per shape between 16
+    goroutines working on different inputs at the same time.  Returns (counts, mismatches, race report or
+    None); the caller records a race report as a violation and judges the mismatches like replay mismatches."""
+    out = ctx.path("conc_%s.ndjson" % cmd)
+    race = None
+    r = ctx.run_bin("dv-race", [cmd, "-out", out] + args, timeout=900, check=False)
+    if "DATA RACE" in r.stderr:
+        m = re.search(r"WARNING: DATA RACE(.*?)={10,}", r.stderr, re.S)
+        where = re.findall(r"\n  ([\w./*()\[\]]+)\(\)\n", m.group(1) if m else r.stderr)
+        race = (dict(site="concurrency", what="data-race", where=next((w for w in where if "yang-parser" in w), "?")),
+                "data race while " + what, dict(kind="race", report=(m.group(0) if m else r.stderr)[:3000], how=how))
+    elif r.returncode != 0:
+        raise Infra("dv-race %s failed rc=%d:\n%s" % (cmd, r.returncode, r.stderr[-3000:]))
+    lines = [l for l in r.stdout.strip().splitlines() if l.startswith("{")]
+    stat = json.loads(lines[-1]) if lines else dict(evaluations=0, mismatches=0)
+    return stat, (read_ndjson(out) if os.path.exists(out) else []), race
 
 
 # ------------------------------------------------------------------------ C17
 def path_sig(site, want_ok, want_at, got_ok, got_at, ph, inc):
     return dict(site=site, phase=ph, want="accept" if want_ok else "reject", got="accept" if got_ok else "reject",
-                delta=(got_at - want_at) if (not want_ok and not got_ok) else 0, incomplete_allowed=bool(inc))
+                delta=0 if (want_ok or got_ok) else ((got_at - want_at) if got_at > 0 else "names-no-element-of-the-input"),
+                incomplete_allowed=bool(inc))
 
 
 def run_c17(ctx):
@@ -98,60 +128,79 @@ def run_c17(ctx):
     nrand, npaths = (40, 100) if q else (300, 800)
     # 1. exhaustive model: walk machine = recursive definition = generated language
     # 2. behaviour generator (run side by side, two TLC processes) + replay
-    with cf.ThreadPoolExecutor(max_workers=2) as ex:
-        fmc = ex.submit(ctx.tlc, "SchemaPathMC", "SchemaPathMC.cfg", workers=10, timeout=2400, heap="10g",
-                        consts={"Shapes": set_lit(PATH_SHAPES), "MaxLen": maxlen_mc, "Ext": ext_mc, "LangLen": 3})
-        fg = ex.submit(ctx.tlc, "SchemaPathGen", "SchemaPathGen.cfg", workers=6, timeout=2400, heap="10g",
-                       consts={"Shapes": set_lit(PATH_SHAPES + [100]), "MaxLen": maxlen, "Ext": ext_gen, "NRand": nrand, "RandDepth": 3},
-                       extra=["-seed", str(ctx.seed)])
-        g = fg.result()
-        fmc.result()
-    d = g["dir"]
-    pairs = []
-    for s in PATH_SHAPES:
-        pairs += [os.path.join(d, f"sps_{s}.ndjson"), os.path.join(d, f"spv_{s}.ndjson")]
-    if not all(os.path.exists(p) for p in pairs):
-        raise Infra("SchemaPathGen did not write all vector files")
-    res = ctx.path("res_path.ndjson")
-    r = ctx.run_bin("dv", ["replay-path", "-out", res] + pairs, timeout=1500)
-    stat = json.loads(r.stdout.strip().splitlines()[-1])
-    # self-test of the replay binding: a perturbed expectation must be reported
-    first = read_ndjson(pairs[1])[:5]
-    first[0]["s"]["ok"] = not first[0]["s"]["ok"]
-    first[0]["s"]["at"] = 0 if first[0]["s"]["ok"] else 1
-    stv, sto = ctx.path("selftest", "spv.ndjson"), ctx.path("selftest", "res.ndjson")
-    write_ndjson(stv, first)
-    r2 = ctx.run_bin("dv", ["replay-path", "-out", sto, pairs[0], stv], timeout=300)
-    if json.loads(r2.stdout.strip().splitlines()[-1])["mismatches"] < 1:
-        raise Infra("self-test: replay-path accepted a perturbed expectation")
-    mism = read_ndjson(res)
-    for m in mism:
-        sig = path_sig("replay", m["want"]["ok"], m["want"]["at"], m["got"]["ok"], m["gotat"], m["want"]["ph"], m["inc"])
-        ctx.disagree(sig, f"path {m['p']} (shape {m['shape']}, incomplete allowed={m['inc']}): spec "
-                     + ("accepts" if m["want"]["ok"] else f"rejects at element {m['want']['at']}") + ", code "
-                     + ("accepts" if m["got"]["ok"] else f"identifies element {m['gotat']} ({m['got']['form']} error, path {m['got']['epath']}, tag {m['got']['tok']!r}; -1 = none of the input)"),
-                     dict(kind="replay", shape=m["shape"], path=m["p"], incomplete_allowed=m["inc"], want=m["want"], got=m["got"],
-                          how=f"bin/check C17 --tier {ctx.tier}; dv probe <sps_{m['shape']}.ndjson> {' '.join(m['p'])}"))
-    # 3. code -> model: seeded random paths on sampled schemas and on the shapes
-    schemas = ctx.path("schemas_path.ndjson")
-    with open(schemas, "w") as f:
-        f.write(open(os.path.join(d, "sprand.ndjson")).read())
-        for s in PATH_SHAPES:
-            f.write(open(os.path.join(d, f"sps_{s}.ndjson")).read())
-    trace = ctx.path("trace_path.ndjson")
-    r = ctx.run_bin("dv", ["record-path", "-schemas", schemas, "-n", str(npaths), "-trace", trace], timeout=900)
-    rstat = json.loads(r.stdout.strip().splitlines()[-1])
-    if rstat["uncompilable"] * 5 > nrand:
-        raise Infra(f"{rstat['uncompilable']} of {nrand} sampled schemas do not compile")
-    fails, events = validate_trace(ctx, "SchemaPathTrace", trace, schemas)
-    if events != rstat["events"]:
-        raise Infra("event count mismatch")
-    ctx.traces += events
-
     def corrupt(ev):
         ev["ok"] = not ev["ok"]
         ev.update(form="" if ev["ok"] else "unknown", epath=[], tok="" if ev["ok"] else ev["p"][0], mv=False)
-    selftest_trace(ctx, "SchemaPathTrace", trace, schemas, corrupt)
+
+    def replay_stage(pairs):
+        res = ctx.path("res_path.ndjson")
+        r = ctx.run_bin("dv", ["replay-path", "-out", res] + pairs, timeout=1500)
+        stat = json.loads(r.stdout.strip().splitlines()[-1])
+        # self-test of the replay binding: a perturbed expectation must be reported
+        first = read_ndjson(pairs[1])[:5]
+        first[0]["s"]["ok"] = not first[0]["s"]["ok"]
+        first[0]["s"]["at"] = 0 if first[0]["s"]["ok"] else 1
+        stv, sto = ctx.path("selftest", "spv.ndjson"), ctx.path("selftest", "res.ndjson")
+        write_ndjson(stv, first)
+        r2 = ctx.run_bin("dv", ["replay-path", "-out", sto, pairs[0], stv], timeout=300)
+        if json.loads(r2.stdout.strip().splitlines()[-1])["mismatches"] < 1:
+            raise Infra("self-test: replay-path accepted a perturbed expectation")
+        return stat, read_ndjson(res)
+
+    def conc(pairs, frace):
+        frace.result()
+        # concurrent stage: 16 goroutines validate different paths against one shared ModelSet (race build)
+        return conc_stage(ctx, "conc-path", sample_pairs(ctx, pairs, 1500, "spc"), "several goroutines validate different paths against one compiled ModelSet",
+                          f"bin/check C17 --tier {ctx.tier}: dv-race conc-path <sps_N.ndjson> <spv_N.ndjson>")
+
+    def trace_stage(d):
+        # 3. code -> model: seeded random paths on sampled schemas and on the shapes
+        schemas = ctx.path("schemas_path.ndjson")
+        with open(schemas, "w") as f:
+            f.write(open(os.path.join(d, "sprand.ndjson")).read())
+            for s in PATH_SHAPES:
+                f.write(open(os.path.join(d, f"sps_{s}.ndjson")).read())
+        trace = ctx.path("trace_path.ndjson")
+        r = ctx.run_bin("dv", ["record-path", "-schemas", schemas, "-n", str(npaths), "-trace", trace], timeout=900)
+        rstat = json.loads(r.stdout.strip().splitlines()[-1])
+        if rstat["uncompilable"] * 5 > nrand:
+            raise Infra(f"{rstat['uncompilable']} of {nrand} sampled schemas do not compile")
+        fails, events = validate_trace(ctx, "SchemaPathTrace", trace, schemas, corrupt)
+        if events != rstat["events"]:
+            raise Infra("event count mismatch")
+        return fails, events, rstat, trace
+
+    # 1. exhaustive model, 2. behaviour generator, race build: side by side; then replay, the concurrent
+    # stage and the trace stage side by side (the verdicts are collected here, in one thread)
+    with cf.ThreadPoolExecutor(max_workers=6) as ex:
+        fmc = ex.submit(ctx.tlc, "SchemaPathMC", "SchemaPathMC.cfg", workers=8, timeout=2400, heap="10g",
+                        consts={"Shapes": set_lit(PATH_SHAPES), "MaxLen": maxlen_mc, "Ext": ext_mc, "LangLen": 3})
+        fg = ex.submit(ctx.tlc, "SchemaPathGen", "SchemaPathGen.cfg", workers=6, timeout=2400, heap="10g",
+                       consts={"Shapes": set_lit(PATH_SHAPES + [100]), "MaxLen": maxlen, "Ext": ext_gen, "FullTails": "FALSE" if q else "TRUE", "NRand": nrand, "RandDepth": 3},
+                       extra=["-seed", str(ctx.seed)])
+        frace = ex.submit(ctx.build, ["dv"], True)     # the harness once more under the race detector
+        d = fg.result()["dir"]
+        pairs = []
+        for s in PATH_SHAPES:
+            pairs += [os.path.join(d, f"sps_{s}.ndjson"), os.path.join(d, f"spv_{s}.ndjson")]
+        if not all(os.path.exists(p) for p in pairs):
+            raise Infra("SchemaPathGen did not write all vector files")
+        f1, f2, f3 = ex.submit(replay_stage, pairs), ex.submit(conc, pairs, frace), ex.submit(trace_stage, d)
+        stat, rmism = f1.result()
+        cstat, cmism, race = f2.result()
+        fails, events, rstat, trace = f3.result()
+        fmc.result()
+    ctx.traces += events
+    if race:
+        ctx.disagree(*race)
+    mism = [dict(m, site="replay") for m in rmism] + [dict(m, site="concurrent") for m in cmism]
+    for m in mism:
+        sig = path_sig(m["site"], m["want"]["ok"], m["want"]["at"], m["got"]["ok"], m["gotat"], m["want"]["ph"], m["inc"])
+        ctx.disagree(sig, f"path {m['p']} (shape {m['shape']}, incomplete allowed={m['inc']}): spec "
+                     + ("accepts" if m["want"]["ok"] else f"rejects at element {m['want']['at']}") + ", code "
+                     + ("accepts" if m["got"]["ok"] else f"identifies element {m['gotat']} ({m['got']['form']} error, path {m['got']['epath']}, tag {m['got']['tok']!r}; -1 = none of the input)"),
+                     dict(kind=m["site"], shape=m["shape"], path=m["p"], incomplete_allowed=m["inc"], want=m["want"], got=m["got"],
+                          how=f"bin/check C17 --tier {ctx.tier}; dv probe <sps_{m['shape']}.ndjson> {' '.join(m['p'])}"))
     for f in fails:
         sig = path_sig("trace", f["wantok"], f["wantat"], f["gotok"], f["gotat"], f["ph"], f["inc"])
         ctx.disagree(sig, f"path {f['p']} (schema {f['sid']}, incomplete allowed={f['inc']}): spec "
@@ -174,8 +223,8 @@ def run_c17(ctx):
                rule="replay: every viable path (accepted with incomplete paths allowed) of <= MaxLen tokens continued by every sequence of <= Ext tokens "
                     "over {all node names incl. choice/case, valid value, invalid value, unknown}, both modes; distinct = (shape, path) with >= 2 tokens; "
                     "trace: seeded random walks with one-token corruptions and over-long tails on TLC-sampled schemas and the shapes",
-               samples=samples, shapes=len(PATH_SHAPES), vectors=nvec, replay_evaluations=stat["evaluations"], trace_events=events,
-               sampled_schemas=nrand, unjudged=dict(empty_path=1, sampled_schemas_refused_by_compiler=rstat["uncompilable"]), bounds=dict(MaxLen=maxlen, Ext=ext_gen, MaxLenMC=maxlen_mc, ExtMC=ext_mc),
+               samples=samples, shapes=len(PATH_SHAPES), vectors=nvec, replay_evaluations=stat["evaluations"], concurrent_evaluations=cstat["evaluations"], trace_events=events,
+               sampled_schemas=nrand, unjudged=dict(empty_path=1, sampled_schemas_refused_by_compiler=rstat["uncompilable"]), bounds=dict(MaxLen=maxlen, Ext=ext_gen, full_tail_alphabet_after_first_tail_token=not q, MaxLenMC=maxlen_mc, ExtMC=ext_mc),
                exhaustive=True,
                explanation="TLC explored the walk machine on every token sequence that keeps the walk alive (plus Ext tokens past a rejection) for 12 schema shapes "
                            "and checked it against the recursive definition, the prefix characterisation of 'first offending' and the generated language; "
@@ -245,59 +294,78 @@ def data_sig(site, kind, vk, what, inchoice):
 def run_c18(ctx):
     ctx.build(["dv"])
     q = ctx.quick()
+    DATA_SHAPES = [s for s in ALL_DATA_SHAPES if not (q and s in (55, 58))]   # quick: two of the four list-hosted nested-default shapes
     me, ml = 3, 3
     wide = [5, 7, 12, 15] if q else [s for s in DATA_SHAPES if s not in (6, 11, 14, 18) and s < 19]     # shapes explored with 3 list entries (the others with 2)
     nrand, nmut = (600, 4) if q else (2000, 6)
-    with cf.ThreadPoolExecutor(max_workers=2) as ex:       # model and generator side by side (two TLC processes)
+    def corrupt(ev):
+        ev["errs"] = ev["errs"] + [dict(t="exec", k="", n="", path=["no-such-node"])]
+
+    def replay_stage(pairs):
+        res = ctx.path("res_data.ndjson")
+        r = ctx.run_bin("dv", ["replay-data", "-out", res] + pairs, timeout=1500)
+        stat = json.loads(r.stdout.strip().splitlines()[-1])
+        # self-test of the replay binding
+        first = read_ndjson(pairs[1])[:5]
+        first[0]["viol"] = first[0]["viol"] + [dict(k="missing", n="no-such-node", path=[], sp=[])]
+        first[0]["must"] = first[0]["viol"]
+        stv, sto = ctx.path("selftest", "dvv.ndjson"), ctx.path("selftest", "res.ndjson")
+        write_ndjson(stv, first)
+        r2 = ctx.run_bin("dv", ["replay-data", "-out", sto, pairs[0], stv], timeout=300)
+        if json.loads(r2.stdout.strip().splitlines()[-1])["mismatches"] < 1:
+            raise Infra("self-test: replay-data accepted a perturbed expectation")
+        return stat, read_ndjson(res)
+
+    def conc(pairs, frace):
+        frace.result()
+        # concurrent stage: 16 goroutines validate / decorate distinct trees against one shared schema (race build)
+        return conc_stage(ctx, "conc-data", sample_pairs(ctx, pairs, 120, "dvc"), "several goroutines run ValidateSchema / AddDefaults on distinct trees against one compiled schema",
+                          f"bin/check C18 --tier {ctx.tier}: dv-race conc-data <dvs_N.ndjson> <dvv_N.ndjson>")
+
+    def trace_stage(d):
+        # code -> model
+        trace, schemas = ctx.path("trace_data.ndjson"), ctx.path("schemas_data.ndjson")
+        r = ctx.run_bin("dv", ["record-data", "-cases", os.path.join(d, "dvrand.ndjson"), "-mut", str(nmut), "-trace", trace, "-schemas", schemas], timeout=900)
+        rstat = json.loads(r.stdout.strip().splitlines()[-1])
+        if rstat["uncompilable"] * 5 > nrand:
+            raise Infra(f"{rstat['uncompilable']} of {nrand} sampled schemas do not compile")
+        fails, events = validate_trace(ctx, "DataValidateTrace", trace, schemas, corrupt)
+        if events != rstat["events"]:
+            raise Infra("event count mismatch")
+        return fails, events, rstat, trace
+
+    # model, generator and race build side by side; then replay, concurrent stage and trace stage side by side
+    with cf.ThreadPoolExecutor(max_workers=6) as ex:
         fmc = ex.submit(ctx.tlc, "DataValidateMC", "DataValidateMC.cfg", workers=8, timeout=2400, heap="10g",
                         consts={"Shapes": set_lit(DATA_SHAPES), "MaxEntries": me, "Wide": set_lit(wide), "MaxLL": ml})
         fg = ex.submit(ctx.tlc, "DataValidateGen", "DataValidateGen.cfg", workers=8, timeout=2400, heap="10g",
                        consts={"Shapes": set_lit(DATA_SHAPES + [100]), "MaxEntries": me, "Wide": set_lit(wide), "MaxLL": ml, "NRand": nrand, "RandDepth": 3},
                        extra=["-seed", str(ctx.seed)])
-        g = fg.result()
+        frace = ex.submit(ctx.build, ["dv"], True)     # the harness once more under the race detector
+        d = fg.result()["dir"]
+        pairs = []
+        for s in DATA_SHAPES:
+            pairs += [os.path.join(d, f"dvs_{s}.ndjson"), os.path.join(d, f"dvv_{s}.ndjson")]
+        if not all(os.path.exists(p) for p in pairs):
+            raise Infra("DataValidateGen did not write all vector files")
+        f1, f2, f3 = ex.submit(replay_stage, pairs), ex.submit(conc, pairs, frace), ex.submit(trace_stage, d)
+        stat, rmism = f1.result()
+        cstat, cmism, race = f2.result()
+        fails, events, rstat, trace = f3.result()
         fmc.result()
-    d = g["dir"]
-    pairs = []
-    for s in DATA_SHAPES:
-        pairs += [os.path.join(d, f"dvs_{s}.ndjson"), os.path.join(d, f"dvv_{s}.ndjson")]
-    if not all(os.path.exists(p) for p in pairs):
-        raise Infra("DataValidateGen did not write all vector files")
-    res = ctx.path("res_data.ndjson")
-    r = ctx.run_bin("dv", ["replay-data", "-out", res] + pairs, timeout=1500)
-    stat = json.loads(r.stdout.strip().splitlines()[-1])
-    # self-test of the replay binding
-    first = read_ndjson(pairs[1])[:5]
-    first[0]["viol"] = first[0]["viol"] + [dict(k="missing", n="no-such-node", path=[], sp=[])]
-    first[0]["must"] = first[0]["viol"]
-    stv, sto = ctx.path("selftest", "dvv.ndjson"), ctx.path("selftest", "res.ndjson")
-    write_ndjson(stv, first)
-    r2 = ctx.run_bin("dv", ["replay-data", "-out", sto, pairs[0], stv], timeout=300)
-    if json.loads(r2.stdout.strip().splitlines()[-1])["mismatches"] < 1:
-        raise Infra("self-test: replay-data accepted a perturbed expectation")
+    ctx.traces += events
+    if race:
+        ctx.disagree(*race)
     shapes = {s: read_ndjson(os.path.join(d, f"dvs_{s}.ndjson"))[0]["kids"] for s in DATA_SHAPES}
-    for m in read_ndjson(res):
+    for m in [dict(m, site="replay") for m in rmism] + [dict(m, site="concurrent") for m in cmism]:
         v = m.get("v") or {}
         what, inch, leaf = ("", False, [])
         if m["kind"] in ("decorate", "twice", "explicit-altered"):
             what, inch, leaf = deco_class(shapes[m["shape"]], m["d"], m["want"], m["got"])
-        sig = data_sig("replay", m["kind"], v.get("k") or v.get("t", ""), what, inch)
+        sig = data_sig(m["site"], m["kind"], v.get("k") or v.get("t", ""), what, inch)
         ctx.disagree(sig, f"shape {m['shape']}: {m['kind']} " + (f"{v.get('k')} {v.get('n')} at /{'/'.join(v.get('path') or [])}" if v else f"{what} {'/'.join(leaf)}"),
-                     dict(kind="replay", shape=m["shape"], mismatch=m["kind"], data=m["d"], want=m["want"], got=m["got"], violation=v,
+                     dict(kind=m["site"], shape=m["shape"], mismatch=m["kind"], data=m["d"], want=m["want"], got=m["got"], violation=v,
                           how=f"bin/check C18 --tier {ctx.tier}; dv probe <dvs_{m['shape']}.ndjson> -data '<data json>'"))
-    # code -> model
-    trace, schemas = ctx.path("trace_data.ndjson"), ctx.path("schemas_data.ndjson")
-    r = ctx.run_bin("dv", ["record-data", "-cases", os.path.join(d, "dvrand.ndjson"), "-mut", str(nmut), "-trace", trace, "-schemas", schemas], timeout=900)
-    rstat = json.loads(r.stdout.strip().splitlines()[-1])
-    if rstat["uncompilable"] * 5 > nrand:
-        raise Infra(f"{rstat['uncompilable']} of {nrand} sampled schemas do not compile")
-    fails, events = validate_trace(ctx, "DataValidateTrace", trace, schemas)
-    if events != rstat["events"]:
-        raise Infra("event count mismatch")
-    ctx.traces += events
-
-    def corrupt(ev):
-        ev["errs"] = ev["errs"] + [dict(t="exec", k="", n="", path=["no-such-node"])]
-    selftest_trace(ctx, "DataValidateTrace", trace, schemas, corrupt)
     for f in fails:
         for kind in ([f["vbad"]] if f["vbad"] else []) + ([f["dbad"]] if f["dbad"] else []):
             isd = kind in ("decorate", "twice", "explicit-altered")
@@ -316,7 +384,7 @@ def run_c18(ctx):
                rule="replay: every data tree of 15 schema shapes within MaxEntries list entries / MaxLL leaf-list values (conforming names, at most one case per "
                     "choice, no empty list / leaf-list / non-presence container); distinct = trees with at least one violation + trees that gain at least one default; "
                     "trace: TLC-sampled schema/data pairs and harness-made seeded mutations (node deleted, entry duplicated, value appended)",
-               samples=samples, shapes=len(DATA_SHAPES), replay_evaluations=stat["evaluations"], trees_with_violations=stat["with_violations"],
+               samples=samples, shapes=len(DATA_SHAPES), replay_evaluations=stat["evaluations"], concurrent_evaluations=cstat["evaluations"], trees_with_violations=stat["with_violations"],
                trees_with_defaults_added=stat["with_defaults_added"], trace_events=events, sampled_pairs=nrand, unjudged=dict(sampled_schemas_refused_by_compiler=rstat["uncompilable"]),
                bounds=dict(MaxEntries=me, shapes_with_MaxEntries=wide, others=2, MaxLL=ml), exhaustive=True,
                explanation="TLC checked Decorate o Decorate = Decorate, explicit data kept, only defaults added, verdict unchanged by decoration on every tree; "
